@@ -12,7 +12,8 @@ import re
 import yaml
 
 STEP_NAMES = ["pre", "run", "post", "sim", "ana", "merge", "a", "b", "c-1", "x_y"]
-PARAM_NAMES = ["P", "PRESSURE", "X", "XY", "SIZE", "ITER", "T", "MESH-SIZE", "DT-MAX"]
+PARAM_NAMES = ["P", "PRESSURE", "X", "XY", "SIZE", "ITER", "T", "MESH-SIZE", "DT-MAX",
+               "P2", "P10", "P02", "RUN1", "RUN01"]
 WORDS = ["echo", "cp", "out.txt", "-n", "4", "&&", "|", "ls", "./sim", "--flag", ">", "log", "'q'",
          "\"dq\"", "a/b", "x=1", "$HOME", "${P}", "$(date)", "$(PX)", "$(P_1)", "100%", "#c"]
 
@@ -47,8 +48,12 @@ def gen_params(rng, adversarial):
     long_labels = n >= 3 and rng.random() < 0.25
     params = {}
     for k in names:
-        kind = rng.choice(["int", "float", "str", "str", "dots"] + (["adv"] if adversarial else []))
+        kind = rng.choice(["int", "float", "str", "str", "dots", "mixed"] + (["adv"] if adversarial else []))
         vals = [gen_value(rng, kind) for _ in range(rows)]
+        if kind == "mixed":
+            # one column holding values that are equal as Python objects but are written differently
+            vals = rng.sample(rng.choice([[1, 1.0, 2, True], [0, 0.0, False, 3], [2, 2.0, "2", 2.5],
+                                          [1, "1", 1.0, "1.0"]]), 4)[:rows]
         if kind == "dots":
             vals = rng.sample([".5", "5", "..5", "0.5", "0..5", "5.", "5..", "0...5"], rows)
         if rng.random() < 0.2:
@@ -134,6 +139,10 @@ def gen_spec(rng, root, adversarial=False, dep_dir=None):
         labels["OLBL"] = "$(OUTPUT_PATH)/shared"
         variables["OUTPUT_PATH"] = "./studies/as_written"
         env_tokens.append("OLBL")
+    if "OLBL" not in labels and rng.random() < 0.3:
+        # the output directory comes from `-o`: the specification does not mention OUTPUT_PATH, so the
+        # environment may hold no string variable at all before its first label
+        variables.pop("OUTPUT_PATH")
     deps = {}
     if dep_dir and rng.random() < 0.4:
         deps = {"paths": [{"name": "DEP", "path": dep_dir}]}
@@ -369,17 +378,29 @@ def expansion_monitor(params, steps, dag, hash_ws):
         rows = range(nrows) if used[nm] else [0]
         for r in rows:
             exp_nodes.setdefault(inst(nm, r), (nm, r))
-    # NamesInjective: distinct value tuples give distinct names, no clash with step names
+    # NamesInjective: distinct value tuples give distinct names, no two (step, value tuple) classes
+    # share a name.  Where they do, the code merges them into one node (known finding
+    # C08-name-collision): reported as such, the rest of the expansion is then not judged.
+    owners = {}
     for nm in order:
         if used[nm]:
-            tuples = {}
             for r in range(nrows):
                 t = tuple(ps_val(params, k, r) for k in sorted(used[nm]))
-                tuples.setdefault(inst(nm, r), set()).add(t)
-            if any(len(v) > 1 for v in tuples.values()):
-                return mon, False
-    if len(set(exp_nodes) & set(order)) != len([n for n in order if not used[n]]):
-        return mon, False
+                owners.setdefault(inst(nm, r), set()).add((nm, t))
+        else:
+            owners.setdefault(nm, set()).add((nm, ()))
+    clash = sorted((n, sorted(v, key=repr)) for n, v in owners.items() if len(v) > 1)
+    if clash:
+        n, who = clash[0]
+        classes = sum(len(v) for v in owners.values())
+        real = [k for k in dag.values if k != "_source"]
+        if len(real) < classes:
+            def show(c):
+                return "%s%s" % (c[0], dict(zip(sorted(used[c[0]]), c[1])) if c[1] else "")
+            mon.append(("sharing-exact", "cause=instance-name-collision: %s and %s are different (step, used-"
+                        "parameter values) classes but are both called %r: %d nodes for %d classes"
+                        % (show(who[0]), show(who[1]), n, len(real), classes)))
+        return mon, True
     real_nodes = [k for k in dag.values if k != "_source"]
     if sorted(real_nodes) != sorted(exp_nodes):
         mon.append(("instances", "instances %s, expected %s" % (sorted(real_nodes), sorted(exp_nodes))))
